@@ -13,13 +13,19 @@
    ucoef t T q c                        T[q][c] if t, Kronecker delta(q, c) otherwise
    qsum4 L1 L2 L3 L4 g                  sum_{c1<L1} sum_{c2<L2} sum_{c3<L3} sum_{c4<L4} g c1 c2 c3 c4
 
-   STILL PARTIAL in C09: the assembled statements keep the eight-fold symmetry [sym8] of the processed blocks as
-   a hypothesis (as Props/C11.v does: under it the store of base_four_symm.py holds the block of every quartet);
-   deriving sym8 for eri_block needs the symmetric specification of Props/C11_eri.v carried through block4. *)
+   The generic assembled statement (any block function) keeps the eight-fold symmetry [sym8] of the processed
+   blocks as a hypothesis, necessarily: base_four_symm.py evaluates one quartet per orbit and copies, so for an
+   arbitrary block function the store does not hold the block of every quartet.  For the production model it is a
+   THEOREM (Proofs/EriSym8P.v: quadruple-sum form of every entry + irrelevance of the summation order + the
+   orientation theorems of Props/C04_orient.v / C11_eri.v): C09_eri_sym8, hence
+   C09_eri_mixed_is_cart_transformed_full and C09_eri_integral_entry carry NO symmetry hypothesis, only: a field
+   of characteristic 0, exact arithmetic, shells with a segment and components of degree <= l, non-zero
+   exponent sums. *)
 From Coq Require Import List Arith Bool ZArith.
 From GB Require Import Base.Field Base.FNum Base.Tables Base.Blocks Model.Shell Model.Spherical Model.Assembly
   Model.Assembly14 Model.Overlap Model.TwoElec Model.OneBody Proofs.BlockMatP Proofs.AssembledP Proofs.AssembledSphP
-  Proofs.AssembledSphOverlapP Proofs.PermP Proofs.PermEx Proofs.Block4FullP.
+  Proofs.AssembledSphOverlapP Proofs.PermP Proofs.PermEx Proofs.TwoElecP Proofs.EriOrientP Proofs.Block4FullP
+  Proofs.EriSym8P.
 Import ListNotations.
 
 (* what the symbols stand for (by definition) *)
@@ -218,3 +224,76 @@ Example C09_block4_instance :
       nth c3 (nth 0 T []) 0 * Assembly14.get4 0%Z cart (3 + c1) 2 (3 + c3) 0)))%Z)).
 Proof. exact ex_block4_instance. Qed.
 Print Assumptions C09_block4_instance.
+
+(* ==================================================================================================== *)
+(* the production model WITHOUT a symmetry hypothesis (Proofs/EriSym8P.v)                                *)
+(* eri_basis_ok K bs: every shell has a segment; every component of every shell has degree <= l; for all shells
+   a b c d of the basis the exponent sums alpha+beta, gamma+delta, alpha+beta+gamma+delta are non-zero *)
+Theorem C09_eri_basis_ok_unfold :
+  forall (F : Type) (K : Fops F) (bs : list (shell F)),
+  eri_basis_ok K bs <->
+  (forall s, In s bs -> 0 < nseg s) /\
+  (forall s, In s bs -> forall i, i < ncomp s -> compsum (nth i (comps_of s) (0, 0, 0)) <= s_l s) /\
+  (forall a b c d, In a bs -> In b bs -> In c bs -> In d bs ->
+     (forall alpha beta, In alpha (s_exps a) -> In beta (s_exps b) -> fadd K alpha beta <> f0 K) /\
+     (forall gamma delta, In gamma (s_exps c) -> In delta (s_exps d) -> fadd K gamma delta <> f0 K) /\
+     (forall alpha beta gamma delta, In alpha (s_exps a) -> In beta (s_exps b) -> In gamma (s_exps c) ->
+        In delta (s_exps d) -> fadd K (fadd K alpha beta) (fadd K gamma delta) <> f0 K)).
+Proof. exact (fun F K bs => iff_refl _). Qed.
+Print Assumptions C09_eri_basis_ok_unfold.
+
+(* the EIGHT-FOLD SYMMETRY of the processed ERI blocks: each of the seven permuted copies written by
+   base_four_symm.py is the processed block of the permuted shell quartet, evaluated independently *)
+Theorem C09_eri_sym8 :
+  forall (F : Type) (K : Fops F), is_field K ->
+  (forall x : F, fapx K x = x) -> (forall n, ofnat K (S n) <> f0 K) ->
+  forall bs : list (shell F), eri_basis_ok K bs -> sym8 (f0 K) (length bs) (Beri K bs).
+Proof. exact (fun F K Kf => eri_sym8 K Kf). Qed.
+Print Assumptions C09_eri_sym8.
+
+Theorem C09_eri_mixed_is_cart_transformed_full :
+  forall (F : Type) (K : Fops F), is_field K ->
+  (forall x : F, fapx K x = x) -> (forall n, ofnat K (S n) <> f0 K) ->
+  forall bs : list (shell F), eri_basis_ok K bs ->
+  forall i j k l m1 q1 m2 q2 m3 q3 m4 q4,
+  i < length bs -> j < length bs -> k < length bs -> l < length bs ->
+  m1 < nseg (sh_at K bs i) -> q1 < osize (sh_at K bs i) -> m2 < nseg (sh_at K bs j) -> q2 < osize (sh_at K bs j) ->
+  m3 < nseg (sh_at K bs k) -> q3 < osize (sh_at K bs k) -> m4 < nseg (sh_at K bs l) -> q4 < osize (sh_at K bs l) ->
+  let ts := fun s => tsum K (f0 K) (fadd K) (fmul K) (s_sph s) (shell_transform K s) (ncomp s) in
+  Assembly14.get4 (f0 K) (eri_integral K bs None false)
+    (oidx K bs i m1 q1) (oidx K bs j m2 q2) (oidx K bs k m3 q3) (oidx K bs l m4 q4)
+  = ts (sh_at K bs i) q1 (fun c1 => ts (sh_at K bs j) q2 (fun c2 =>
+    ts (sh_at K bs k) q3 (fun c3 => ts (sh_at K bs l) q4 (fun c4 =>
+      Assembly14.get4 (f0 K) (eri_integral K (map to_cart bs) None false)
+        (gidx K bs i m1 c1) (gidx K bs j m2 c2) (gidx K bs k m3 c3) (gidx K bs l m4 c4))))).
+Proof. exact (fun F K Kf => eri_mixed_is_cart_transformed_full K Kf). Qed.
+Print Assumptions C09_eri_mixed_is_cart_transformed_full.
+
+(* EVERY entry of the assembled array (all n^4 cells, evaluated or copied) is the quadruple sum over the raw block
+   of its OWN shell quartet: U (x) U (x) U (x) U, the four norms, the raw entry *)
+Theorem C09_eri_integral_entry :
+  forall (F : Type) (K : Fops F), is_field K ->
+  (forall x : F, fapx K x = x) -> (forall n, ofnat K (S n) <> f0 K) ->
+  forall bs : list (shell F), eri_basis_ok K bs ->
+  forall i j k l m1 q1 m2 q2 m3 q3 m4 q4,
+  i < length bs -> j < length bs -> k < length bs -> l < length bs ->
+  m1 < nseg (sh_at K bs i) -> q1 < osize (sh_at K bs i) -> m2 < nseg (sh_at K bs j) -> q2 < osize (sh_at K bs j) ->
+  m3 < nseg (sh_at K bs k) -> q3 < osize (sh_at K bs k) -> m4 < nseg (sh_at K bs l) -> q4 < osize (sh_at K bs l) ->
+  let a := sh_at K bs i in let b := sh_at K bs j in let c := sh_at K bs k in let d := sh_at K bs l in
+  let U := fun s q x => ucoef K (s_sph s) (shell_transform K s) q x in
+  Assembly14.get4 (f0 K) (eri_integral K bs None false)
+    (oidx K bs i m1 q1) (oidx K bs j m2 q2) (oidx K bs k m3 q3) (oidx K bs l m4 q4)
+  = qsum4 K (ncomp a) (ncomp b) (ncomp c) (ncomp d) (fun c1 c2 c3 c4 =>
+      fmul K (fmul K (fmul K (fmul K (U a q1 c1) (U b q2 c2)) (U c q3 c3)) (U d q4 c4))
+        (fmul K (ncont K d m4 c4) (fmul K (ncont K c m3 c3) (fmul K (ncont K b m2 c2) (fmul K (ncont K a m1 c1)
+           (TwoElec.get8 K (eri_block K a b c d) m1 c1 m2 c2 m3 c3 m4 c4)))))).
+Proof. exact (fun F K Kf => eri_integral_entry K Kf). Qed.
+Print Assumptions C09_eri_integral_entry.
+
+(* the hypotheses are satisfiable: spherical d shell, Cartesian p shell, s shell (two primitives each) over Qc *)
+Example C09_eri_hypotheses_satisfiable :
+  is_field KQ4 /\ (forall x, fapx KQ4 x = x) /\ (forall n, ofnat KQ4 (S n) <> f0 KQ4) /\
+  eri_basis_ok KQ4 ex_eri_basis /\ ototal KQ4 ex_eri_basis = 9 /\
+  sym8 (f0 KQ4) 3 (Beri KQ4 ex_eri_basis).
+Proof. exact ex_eri_full. Qed.
+Print Assumptions C09_eri_hypotheses_satisfiable.
